@@ -1369,7 +1369,7 @@ for _it in UNITS["bucket"]["items"]:
         _it["serves"] = ["C02", "C05", "C16"]
     else:
         _it["serves"] = ["C02", "C16"] + (["C05"] if _nm in _C05_DEPS else [])
-UNITS["bucket"]["search_tests"] = {"C02": "verif_search_c02", "C05": "verif_search_reqh_c05", "C16": "verif_search_c16_route"}  # the filter "verif_search_c02" also runs verif_search_c02_reply
+UNITS["bucket"]["search_tests"] = {"C02": "verif_search_c02", "C05": "verif_search_reqh_c05", "C16": "verif_search_c16_route"}  # the filters are prefixes: "verif_search_c02" also runs verif_search_c02_reply, "verif_search_c16_route" also runs verif_search_c16_route_closest
 
 # ---------------------------------------------------------------------------------------------
 # unit keystore (C18): password gating of the encrypted key store, await-erased
